@@ -45,7 +45,7 @@ class WorkerInput(FragmentTask):
             return
         mp = out.value.get("mp_inputs")
         ok = isinstance(mp, list) and len(mp) == 1 and isinstance(mp[0], dict)
-        ctx.oblige("post.one-task-appended", ok, "P")
+        ctx.structure("post.one-task-appended", ok)
         if not ok:
             return
         m, B, off = mp[0], inp["B"], inp["off"]
